@@ -20,9 +20,11 @@ import (
 )
 
 const (
-	// watchdog is the only use of wall-clock time: a batch normally takes well
-	// under 2 s. Its firing alone is never a violation.
-	watchdog = 120 * time.Second
+	// watchdog is the only use of wall-clock time: most batches take well
+	// under 2 s, the slowest (the resolver batches on hostile universes)
+	// about 40 s on an idle machine and three times that with every core
+	// busy. Its firing alone is never a violation.
+	watchdog = 360 * time.Second
 	// aloneBudget is the restated liveness bound for a single call on an input
 	// of at most 1 MiB, run alone in a fresh child.
 	aloneBudget = 120 * time.Second
